@@ -15,7 +15,9 @@ def _normalize_negative_indices(axis_item, axis_length):
             start = max(start + axis_length, 0)
         if stop is not None and stop < 0:
             stop = max(stop + axis_length, 0)
-        return slice(start, stop, axis_item.step)
+        # A step of 1 is no step; the WCS slicing machinery cannot combine slices that carry one.
+        step = None if axis_item.step == 1 else axis_item.step
+        return slice(start, stop, step)
     if axis_item < 0:
         if axis_item < -axis_length:
             raise IndexError(f"index {axis_item} is out of bounds for axis with size {axis_length}")
